@@ -55,6 +55,56 @@ def selftest_obligations(prop: str, rep: Report, root: str) -> None:
         rep.undecided("SELFTEST", "variants", "-", "every variant is stale on this tree")
 
 
+def fuzz_obligations(prop: str, rep: Report, root: str) -> None:
+    """False-alarm fuzzing of this property's checker on the current tree (sa/selftest/havoc.py, rewrite.py):
+    one scratch copy per site, each differing from the tree by ONE behaviour-preserving edit.  A VIOLATION on any
+    of them means a rule of this checker matches the shape of the code instead of its meaning -> the checker is
+    broken for this tree (UNDECIDED, exit 2); it is never a violation of the property."""
+    from .selftest import havoc, rewrite
+
+    rep.rule("FUZZ", "no false alarm under behaviour-preserving edits: (a) every computed value wrapped in an unmodelled identity (copy.copy) - answer 0 or 2, never 1; "
+             "(b) every applicable local rewrite (comparison orientation, chained comparison, or-chain -> membership, if/else <-> conditional expression, hexlify().decode() -> .hex(), "
+             "elif -> nested if, dict(map(lambda)) -> comprehension, return via a local) - answer 0", 50)
+    if os.environ.get("SA_NO_SELFTEST") == "1":
+        rep.ok("FUZZ", "skipped (nested run)", "-")
+        return
+    os.environ["SA_NO_SELFTEST"] = "1"
+    try:
+        hs = havoc.sites(root)
+        rs = rewrite.all_sites(root, None)
+        with ThreadPoolExecutor(max_workers=min(16, os.cpu_count() or 4)) as ex:
+            hres = list(ex.map(lambda k: havoc.run_site(k, hs[k], root, [prop]), range(len(hs))))
+            rres = list(ex.map(lambda k: rewrite.run_site(k, rs[k], root, [prop]), range(len(rs))))
+    finally:
+        os.environ.pop("SA_NO_SELFTEST", None)
+    stats = {"havoc_sites": len(hs), "havoc_exit0": 0, "havoc_exit2": 0, "havoc_alarm": 0, "rewrite_sites": len(rs), "rewrite_exit0": 0, "rewrite_exit2": 0, "rewrite_alarm": 0, "skipped": 0}
+    for r in hres:
+        inst = f"havoc #{r['site']} {r['where']} {r.get('what', '')[:60]}"
+        if r["status"] == "SKIP":
+            stats["skipped"] += 1
+        elif r["status"] == "ALARM":
+            stats["havoc_alarm"] += 1
+            rep.undecided("FUZZ", inst, r["where"], f"the checker reports a VIOLATION on a tree that differs only by an unmodelled identity call: {r['alarms']}")
+        else:
+            stats["havoc_exit2" if r["rc"] else "havoc_exit0"] += 1
+            rep.ok("FUZZ", inst, r["where"], "exit 2 (cannot decide)" if r["rc"] else "exit 0")
+    for r in rres:
+        inst = f"rewrite {r['kind']} #{r['site']} {r['where'][:90]}"
+        if r["status"] == "SKIP":
+            stats["skipped"] += 1
+        elif r["status"] == "ALARM":
+            stats["rewrite_alarm"] += 1
+            rep.undecided("FUZZ", inst, r["where"], f"the checker reports a VIOLATION on a behaviour-preserving rewrite: {r['alarms']}")
+        elif r["status"] == "UNDECIDED":
+            stats["rewrite_exit2"] += 1
+            rep.note(f"fuzz: {inst}: exit 2 (cannot decide) - tolerated, recorded")
+            rep.ok("FUZZ", inst, r["where"], "exit 2 (cannot decide)")
+        else:
+            stats["rewrite_exit0"] += 1
+            rep.ok("FUZZ", inst, r["where"], "exit 0")
+    rep.extra["fuzz"] = stats
+
+
 MYPY_SNIPPET = r"""
 import json, os, sys
 os.chdir(sys.argv[1])
